@@ -85,8 +85,13 @@ def evaluate(
         # split data
         y_train, y_test, X_train, X_test = _split(y, X, train, test, cv.fh)
 
-        # create forecasting horizon
-        fh = ForecastingHorizon(y_test.index, is_relative=False)
+        # create forecasting horizon: the test time points as steps ahead of the end
+        # of the training window. The steps are the same in every fold, so that
+        # forecasters which take the horizon in fit can also be updated from fold to
+        # fold (with absolute time points every fold had another horizon)
+        fh = ForecastingHorizon(y_test.index, is_relative=False).to_relative(
+            y_train.index[-1]
+        )
 
         # fit/update
         start_fit = time.time()
